@@ -37,9 +37,9 @@ pub struct Case {
     pub corner_offset: Option<EdgeOff>,
 }
 
-fn shape_xml(id: &str, kind: u8, b: &[f64; 4]) -> XEl {
+fn shape_xml(id: &str, kind: u8, b: &[f64; 4]) -> Vec<XEl> {
     let [x, y, w, h] = *b;
-    match kind % 4 {
+    vec![match kind % 6 {
         1 => XEl::new("circle").a("id", id).a("cxy", format!("{} {}", num(x + w / 2.0), num(y + w / 2.0))).a("r", num(w / 2.0)),
         2 => XEl::new("ellipse").a("id", id).a("cxy", format!("{} {}", num(x + w / 2.0), num(y + h / 2.0))).a("rxy", format!("{} {}", num(w / 2.0), num(h / 2.0))),
         3 => {
@@ -48,13 +48,25 @@ fn shape_xml(id: &str, kind: u8, b: &[f64; 4]) -> XEl {
             g.kids.push(X::El(XEl::new("rect").a("xy", format!("{} {}", num(x + w / 2.0), num(y + h / 2.0))).a("wh", format!("{} {}", num(w / 2.0), num(h / 2.0)))));
             g
         }
+        4 => {
+            // an instance of a rect defined in <defs>
+            let mut d = XEl::new("defs");
+            d.kids.push(X::El(XEl::new("rect").a("id", format!("t{id}")).a("width", num(w)).a("height", num(h))));
+            return vec![d, XEl::new("use").a("id", id).a("href", format!("#t{id}")).a("x", num(x)).a("y", num(y))];
+        }
+        5 => {
+            // an instance of a rect template from <specs>
+            let mut d = XEl::new("specs");
+            d.kids.push(X::El(XEl::new("rect").a("id", format!("t{id}")).a("wh", format!("{} {}", num(w), num(h)))));
+            return vec![d, XEl::new("reuse").a("id", id).a("href", format!("#t{id}")).a("x", num(x)).a("y", num(y))];
+        }
         _ => XEl::new("rect").a("id", id).a("xy", format!("{} {}", num(x), num(y))).a("wh", format!("{} {}", num(w), num(h))),
-    }
+    }]
 }
 
 fn shape_box(kind: u8, b: &[f64; 4]) -> BBox {
     let [x, y, w, h] = *b;
-    if kind % 4 == 1 {
+    if kind % 6 == 1 {
         BBox::xywh(x, y, w, w)
     } else {
         BBox::xywh(x, y, w, h)
@@ -72,7 +84,8 @@ fn end_txt(id: &str, e: &EndSpec) -> String {
 }
 
 pub fn case_xml(c: &Case) -> String {
-    let mut els = vec![shape_xml("a", c.kind_a, &c.a), shape_xml("b", c.kind_b, &c.b)];
+    let mut els = shape_xml("a", c.kind_a, &c.a);
+    els.extend(shape_xml("b", c.kind_b, &c.b));
     let mut e = XEl::new(if c.conn == 3 { "polyline" } else { "line" }).a("id", "conn");
     e.set("start", end_txt("a", &c.start));
     e.set("end", end_txt("b", &c.end));
@@ -81,7 +94,9 @@ pub fn case_xml(c: &Case) -> String {
         2 => e.set("edge-type", "v"),
         _ => {}
     }
-    if c.conn == 3 {
+    // corner-offset only has a meaning on corner polylines, but it is an svgdx attribute on any connector
+    // and must never reach the output
+    {
         match c.corner_offset {
             Some(EdgeOff::Abs(a)) => e.set("corner-offset", num(a)),
             Some(EdgeOff::Ratio(r)) => e.set("corner-offset", format!("{}%", num(r * 100.0))),
@@ -137,7 +152,7 @@ fn placement() -> impl Strategy<Value = ([f64; 4], [f64; 4])> {
 }
 
 fn fam_connectors(_t: Tier) -> BoxedStrategy<Case> {
-    (0u8..4, 0u8..4, placement(), 0u8..4, any::<u8>())
+    (0u8..6, 0u8..6, placement(), 0u8..4, any::<u8>())
         .prop_flat_map(|(ka, kb, (a, b), conn, off)| {
             // named locations are only generated for straight lines and corner polylines; for the corner kind only edge
             // locations (t r b l and edge offsets) since a corner location has no direction
@@ -156,11 +171,14 @@ fn fam_connectors(_t: Tier) -> BoxedStrategy<Case> {
                 fix(&mut start);
                 fix(&mut end);
             }
-            let corner_offset = match off % 5 {
+            let corner_offset = match off % 7 {
                 0 | 1 => None,
-                2 => Some(EdgeOff::Abs(1.0 + (off / 5) as f64 / 4.0)),
+                2 => Some(EdgeOff::Abs(1.0 + (off / 7) as f64 / 4.0)),
                 3 => Some(EdgeOff::Abs(2.5)),
-                _ => Some(EdgeOff::Ratio([0.25, 0.5, 0.75][(off / 5) as usize % 3])),
+                // negative: measured back from the end (the Length convention shared with edge offsets)
+                5 => Some(EdgeOff::Abs(-(0.5 + (off / 7) as f64 / 4.0))),
+                6 => Some(EdgeOff::Abs(-2.0)),
+                _ => Some(EdgeOff::Ratio([0.25, 0.5, 0.75][(off / 7) as usize % 3])),
             };
             Case { kind_a, kind_b, a, b, start, end, conn, corner_offset }
         })
@@ -290,6 +308,9 @@ impl Property for C13 {
                     u = u.union(k);
                 }
                 u
+            } else if e.name == "use" {
+                // a <use> carries only its position; its size is that of the template it instantiates
+                BBox::xywh(fnum0(e, "x"), fnum0(e, "y"), want[2], want[3])
             } else {
                 out_bbox(e)?
             };
@@ -434,6 +455,45 @@ impl Property for C13 {
                     let n = pts.len();
                     if !perpendicular(pts[n - 1], pts[n - 2], &bb, &case.end) {
                         return Verdict::fail("c13:corner:last-segment-not-perpendicular", format!("last segment {:?} -> {:?}\n{}", pts[n - 2], pts[n - 1], ctx()), vec![], 1);
+                    }
+                    // Z-shaped routes (two bends between edges that face opposite ways along one axis): the bend lies
+                    // "50% along the path between the connected elements" unless corner-offset says otherwise - a
+                    // percentage of the way from start to end, an absolute distance from the start, or (negative)
+                    // back from the end
+                    let edge_char = |p: (f64, f64), bx: &BBox, spec: &EndSpec| -> Option<char> {
+                        match spec {
+                            EndSpec::Loc(l) | EndSpec::Edge(l, _) => l.chars().next(),
+                            _ => {
+                                let e = edge_of(p, bx);
+                                if e.len() == 1 { Some(e[0]) } else { None }
+                            }
+                        }
+                    };
+                    if n == 4 {
+                        if let (Some(es), Some(ee)) = (edge_char(pts[0], &ba, &case.start), edge_char(pts[3], &bb, &case.end)) {
+                            let horizontal = matches!((es, ee), ('l', 'r') | ('r', 'l'));
+                            let vertical = matches!((es, ee), ('t', 'b') | ('b', 't'));
+                            let (s00, e00) = if horizontal { (pts[0].0, pts[3].0) } else { (pts[0].1, pts[3].1) };
+                            // (coincident start and end coordinates have no direction: not judged)
+                            if (horizontal || vertical) && (s00 - e00).abs() > 0.01 {
+                                let (s0, e0, got) = if horizontal { (pts[0].0, pts[3].0, pts[1].0) } else { (pts[0].1, pts[3].1, pts[1].1) };
+                                let dirn = if e0 < s0 { -1.0 } else { 1.0 };
+                                let want = match case.corner_offset {
+                                    None => (s0 + e0) / 2.0,
+                                    Some(EdgeOff::Ratio(r)) => s0 + r * (e0 - s0),
+                                    Some(EdgeOff::Abs(a)) if a >= 0.0 => s0 + a * dirn,
+                                    Some(EdgeOff::Abs(a)) => e0 + a * dirn,
+                                };
+                                if (got - want).abs() > 0.004 {
+                                    return Verdict::fail(
+                                        "c13:corner:bend-misplaced",
+                                        format!("Z-shaped route from {} = {s0} to {e0}: bend at {got}, corner-offset {:?} puts it at {want}\n{}", if horizontal { "x" } else { "y" }, case.corner_offset, ctx()),
+                                        vec![],
+                                        1,
+                                    );
+                                }
+                            }
+                        }
                     }
                 }
             }
